@@ -47,10 +47,11 @@ def rat_literal(v) -> str:
 
 
 class Slice:
-    def __init__(self, params, opaque=None, skip=(), wrappers=('FloatWithUnit', 'np.array', 'np.asarray')):
+    def __init__(self, params, opaque=None, skip=(), wrappers=('FloatWithUnit', 'np.array', 'np.asarray', 'float'), inputs=()):
         self.params = list(params)
         self.opaque = dict(opaque or {})
         self.skip = set(skip)
+        self.inputs = set(inputs)  # local names that are inputs of the slice even though assigned from non-arithmetic code
         self.wrappers = set(wrappers)
         self.flags = {}
 
@@ -95,6 +96,8 @@ class Slice:
                 return self.arith(node.args[0], env)
             if fn == 'np.mod' and len(node.args) == 2 and isinstance(node.args[1], ast.Constant) and node.args[1].value == 1:
                 return f'(G.wrap {self.arith(node.args[0], env)})'
+            if fn in ('ceil', 'math.ceil', 'np.ceil') and len(node.args) == 1:
+                return f'(G.ceilZ {self.arith(node.args[0], env)})'
             if fn == 'np.nan_to_num' and len(node.args) == 1:
                 self.flags.setdefault('nan_to_num_args', []).append(ast.unparse(node.args[0]))
                 return self.arith(node.args[0], env)
@@ -118,7 +121,11 @@ class Slice:
                     try:
                         env[tg.id] = self.arith(s.value, env)
                     except Untranslatable:
-                        env[tg.id] = OPAQUE
+                        env[tg.id] = tg.id if tg.id in self.inputs and tg.id in self.params else OPAQUE
+                    continue
+                if isinstance(tg, ast.Tuple) and all(isinstance(e, ast.Name) for e in tg.elts):
+                    for e in tg.elts:
+                        env[e.id] = e.id if e.id in self.inputs and e.id in self.params else OPAQUE
                     continue
                 if isinstance(tg, ast.Subscript) and isinstance(tg.value, ast.Name) and isinstance(tg.slice, ast.Compare) \
                         and tg.value.id in env and env[tg.value.id] is not OPAQUE:
@@ -138,6 +145,8 @@ class Slice:
                 env[s.target.id] = f'({cur} {BIN[type(s.op)]} {self.arith(s.value, env)})'
                 continue
             if isinstance(s, ast.If):
+                if ast.unparse(s.test) in self.skip and s.body and isinstance(s.body[-1], ast.Raise) and not s.orelse:
+                    continue  # a declared precondition guard
                 cond = self.arith(s.test, env)
                 if s.body and isinstance(s.body[-1], ast.Raise):
                     if s.orelse:
@@ -183,11 +192,11 @@ def lean_def(name, params, ty, body, doc):
     return f'/-- {doc} -/\ndef {name} {sig}: {ty} :=\n  {body}\n'
 
 
-def straight_line(file, qualname, name, params, opaque=None, skip=(), result='return', doc=''):
+def straight_line(file, qualname, name, params, opaque=None, skip=(), result='return', doc='', inputs=()):
     """translate a whole function body; result: 'return' | 'store:<attr>' | 'var:<name>'"""
     tree = ast.parse((REPO_SRC / file).read_text())
     fn = find_function(tree, qualname)
-    sl = Slice(params, opaque, skip)
+    sl = Slice(params, opaque, skip, inputs=inputs)
     env, st = {}, {'raises': [], 'stores': {}, 'result_node': None}
     sl.block(fn.body, env, [], st)
     if result == 'return':
@@ -202,7 +211,7 @@ def straight_line(file, qualname, name, params, opaque=None, skip=(), result='re
         res = env.get(result[4:])
         if res is None or res is OPAQUE:
             raise Untranslatable(f'{result[4:]} is not an arithmetic value')
-    is_int = res.startswith('(G.truncZ')
+    is_int = res.startswith('(G.truncZ') or res.startswith('(G.ceilZ')
     ty = 'Int' if is_int else 'Rat'
     if st['raises']:
         guard = ' ∨ '.join(f'({r})' for r in st['raises'])
@@ -238,7 +247,7 @@ def slice_c02():
     d, _ = straight_line('transitions.py', '_compute_site_radius', 'autoRadius', ['vibration_amplitude', 'min_dist'],
                          opaque={'np.min(pdist[np.triu_indices_from(pdist, k=1)])': 'min_dist'},
                          doc='transitions.py _compute_site_radius: `min_dist` is the smallest site separation; `none` = the ValueError branch')
-    return HEADER + d + '\nend G.Gen\n'
+    return HEADER + d + '\n' + slice_c02b() + '\nend G.Gen\n'
 
 
 def slice_c08():
@@ -330,7 +339,7 @@ def slice_c10():
             f'def peakNoPath : PeakAct := .{act}\n'
             '\n/-- … and when a peak\'s path replaces the best one so far -/\n'
             f'def peakBetter (cost best_cost : Rat) : Bool :=\n  decide {better}\n')
-    return HEADER + out + '\nend G.Gen\n'
+    return HEADER + out + '\n' + slice_c10b() + '\nend G.Gen\n'
 
 
 def slice_c14():
@@ -367,11 +376,220 @@ def slice_c05():
     d, _ = straight_line('jumps.py', 'Jumps.jump_diffusivity', 'jumpDiffusivity', ['sum_sq', 'angstrom', 'dimensions', 'n_floating', 'total_time'],
                          opaque={'np.sum(pdist ** 2 * self.matrix())': 'sum_sq', 'self.trajectory.total_time': 'total_time', 'self.n_floating': 'n_floating'},
                          doc='jumps.py jump_diffusivity: `sum_sq` = Σ_ij (site distance)² × jump count')
-    return HEADER + d + '\nend G.Gen\n'
+    return HEADER + d + '\n' + slice_c05b() + '\nend G.Gen\n'
+
+
+def assigned_text(fn, name):
+    """source text of every right-hand side assigned to the local `name` in fn"""
+    return [ast.unparse(n.value) for n in ast.walk(fn) if isinstance(n, ast.Assign) and len(n.targets) == 1
+            and isinstance(n.targets[0], ast.Name) and n.targets[0].id == name]
+
+
+def flag(name, value, doc):
+    return f'/-- {doc} -/\ndef {name} : Bool := {"true" if value else "false"}\n'
+
+
+def int_expr(node, names):
+    if isinstance(node, ast.Name) and node.id in names:
+        return node.id
+    if isinstance(node, ast.Constant) and isinstance(node.value, int) and not isinstance(node.value, bool):
+        return f'({node.value} : Int)'
+    if isinstance(node, ast.BinOp) and type(node.op) in (ast.Mod, ast.Add, ast.Sub, ast.Mult):
+        op = {ast.Mod: '%', ast.Add: '+', ast.Sub: '-', ast.Mult: '*'}[type(node.op)]
+        return f'({int_expr(node.left, names)} {op} {int_expr(node.right, names)})'
+    raise Untranslatable(f'integer expression `{ast.unparse(node)[:60]}`')
+
+
+def slice_c10b():
+    tree = ast.parse((REPO_SRC / 'path.py').read_text())
+    fn = find_function(tree, 'Pathway.wrapped_sites')
+    unpack = next((n for n in fn.body if isinstance(n, ast.Assign) and isinstance(n.targets[0], ast.Tuple) and ast.unparse(n.value) == 'self.dims'), None)
+    ret = fn.body[-1]
+    if unpack is None or not (isinstance(ret, ast.Return) and isinstance(ret.value, ast.ListComp) and len(ret.value.generators) == 1):
+        raise Untranslatable('wrapped_sites: expected `<dims> = self.dims` and `return [<tuple> for <x, y, z> in self.sites]`')
+    gen = ret.value.generators[0]
+    if ast.unparse(gen.iter) != 'self.sites' or gen.ifs or not isinstance(gen.target, ast.Tuple) or not isinstance(ret.value.elt, ast.Tuple):
+        raise Untranslatable('wrapped_sites: comprehension shape')
+    dims = [e.id for e in unpack.targets[0].elts]
+    xyz = [e.id for e in gen.target.elts]
+    if len(dims) != 3 or len(xyz) != 3 or len(ret.value.elt.elts) != 3:
+        raise Untranslatable('wrapped_sites: three axes expected')
+    comps = [int_expr(e, set(dims + xyz)) for e in ret.value.elt.elts]
+    out = ('/-- path.py Pathway.wrapped_sites, one site: (Python `%` with a positive modulus is Lean\'s `Int.emod`) -/\n'
+           f'def wrappedSite ({" ".join(xyz)} {" ".join(dims)} : Int) : Int × Int × Int :=\n  ({", ".join(comps)})\n')
+    b, _ = straight_line('path.py', 'Pathway.frac_sites', 'fracSite', ['w', 'dims'], opaque={'np.array(sites)': 'w', 'np.array(self.dims)': 'dims'},
+                         skip={'not self.dims'}, doc='path.py Pathway.frac_sites, per axis: `w` = wrapped voxel coordinate')
+    srcs = assigned_text(find_function(tree, 'Pathway.frac_sites'), 'sites')
+    f = flag('fracSitesUseWrapped', srcs == ['self.wrapped_sites()'], 'frac_sites starts from `self.wrapped_sites()`')
+    return out + '\n' + b + '\n' + f
+
+
+def slice_c05b():
+    tree = ast.parse((REPO_SRC / 'jumps.py').read_text())
+    fn = find_function(tree, 'Jumps.rates')
+    loop = next((n for n in fn.body if isinstance(n, ast.For) and ast.unparse(n.iter) == 'self.site_pairs'), None)
+    if loop is None:
+        raise Untranslatable('rates: `for site_pair in self.site_pairs` not found')
+    last = loop.body[-1]
+    if not (isinstance(last, ast.Assign) and ast.unparse(last.targets[0]) == 'dct[site_pair]' and isinstance(last.value, ast.Tuple) and len(last.value.elts) == 2):
+        raise Untranslatable('rates: loop does not end with `dct[site_pair] = <mean>, <std>`')
+    sl = Slice(['mean_jumps', 'std_jumps', 'n_floating', 'total_time', 'n_parts'],
+               {'np.mean(n_jumps)': 'mean_jumps', 'np.std(n_jumps, ddof=1)': 'std_jumps', 'self.trajectory.total_time': 'total_time', 'self.n_floating': 'n_floating'})
+    env, st = {}, {'raises': [], 'stores': {}, 'result_node': None}
+    pre = [n for n in fn.body if isinstance(n, ast.Assign) and isinstance(n.targets[0], ast.Name)]
+    sl.block(pre + loop.body[:-1], env, [], st)
+    mean = sl.arith(last.value.elts[0], env)
+    std = sl.arith(last.value.elts[1], env)
+    n_jumps = assigned_text(loop, 'n_jumps')
+    parts = assigned_text(fn, 'parts')
+    out = ('/-- jumps.py Jumps.rates: rate of one site pair from the mean of its per-part jump counts -/\n'
+           f'def rateMean ({" ".join(sl.params)} : Rat) : Rat :=\n  {mean}\n'
+           '\n/-- … and its standard deviation from the sample standard deviation of the counts -/\n'
+           f'def rateStd ({" ".join(sl.params)} : Rat) : Rat :=\n  {std}\n\n')
+    out += flag('ratesCountPerPart', n_jumps == ['[part[site_pair] for part in parts]'] and parts == ['[part.counter() for part in self.split(n_parts)]'],
+                'the counts are the label counters of `self.split(n_parts)`, one per part')
+    # Jumps.split forwards the conversion settings to every part
+    fs = find_function(tree, 'Jumps.split')
+    ret = fs.body[-1]
+    ok = False
+    if isinstance(ret, ast.Return) and isinstance(ret.value, ast.ListComp) and isinstance(ret.value.elt, ast.Call) and ast.unparse(ret.value.elt.func) == 'Jumps':
+        kws = {k.arg: ast.unparse(k.value) for k in ret.value.elt.keywords}
+        ok = (kws == {'conversion_method': 'self.conversion_method', 'minimal_residence': 'self.minimal_residence'}
+              and [ast.unparse(a) for a in ret.value.elt.args] == ['part'] and assigned_text(fs, 'parts') == ['self.transitions.split(n_parts)'])
+    out += '\n' + flag('splitForwardsSettings', ok, 'Jumps.split builds `Jumps(part, conversion_method=self.conversion_method, minimal_residence=self.minimal_residence)` for the parts of `self.transitions.split(n_parts)`')
+    # provenance of the distances in jump_diffusivity
+    fj = find_function(tree, 'Jumps.jump_diffusivity')
+    out += '\n' + flag('jumpDistancesInSimulationCell',
+                       assigned_text(fj, 'lattice') == ['self.trajectory.get_lattice()'] and assigned_text(fj, 'sites') == ['self.sites']
+                       and assigned_text(fj, 'pdist') == ['lattice.get_all_distances(sites.frac_coords, sites.frac_coords)'],
+                       'jump_diffusivity measures site distances with the TRAJECTORY\'s lattice (`get_all_distances` = minimum image)')
+    return out
+
+
+def slice_c02b():
+    tree = ast.parse((REPO_SRC / 'transitions.py').read_text())
+    fn = find_function(tree, '_compute_site_radius')
+    return flag('siteSeparationsInSimulationCell',
+                assigned_text(fn, 'lattice') == ['trajectory.get_lattice()'] and assigned_text(fn, 'site_coords') == ['sites.frac_coords']
+                and assigned_text(fn, 'pdist') == ['lattice.get_all_distances(site_coords, site_coords)'],
+                '_compute_site_radius measures site separations with the TRAJECTORY\'s lattice (`get_all_distances` = minimum image)')
+
+
+def slice_c12():
+    tree = ast.parse((REPO_SRC / 'jumps.py').read_text())
+    fn = find_function(tree, 'Jumps.collective')
+    sl = Slice(['attempt_freq', 'time_step'], inputs={'attempt_freq', 'time_step'})
+    env, st = {}, {'raises': [], 'stores': {}, 'result_node': None}
+    sl.block(fn.body, env, [], st)
+    ms = env.get('max_steps')
+    if ms is None or ms is OPAQUE:
+        raise Untranslatable('collective: max_steps is not an arithmetic value')
+    ret = st['result_node']
+    if not (isinstance(ret, ast.Call) and ast.unparse(ret.func) == 'Collective' and not ret.args):
+        raise Untranslatable('collective: does not return Collective(<keywords>)')
+    kws = {k.arg: ast.unparse(k.value) for k in ret.keywords}
+    out = ('/-- jumps.py Jumps.collective: the correlation window in time steps -/\n'
+           f'def maxSteps (attempt_freq time_step : Rat) : Int :=\n  {ms}\n\n')
+    out += flag('collectiveUsesSimulationCell', kws.get('lattice') == 'trajectory.get_lattice()' and assigned_text(fn, 'trajectory') == ['self.trajectory'],
+                'the Collective analysis is given the TRAJECTORY\'s lattice for site distances')
+    out += '\n' + flag('collectiveForwardsArguments', kws.get('max_steps') == 'max_steps' and kws.get('max_dist') == 'max_dist' and kws.get('jumps') == 'self'
+                       and kws.get('sites') == 'sites' and assigned_text(fn, 'sites') == ['self.transitions.sites'],
+                       'window, cut-off, jumps and sites are passed on unchanged')
+    inputs_ok = (assigned_text(fn, 'time_step') == ['trajectory.time_step'])
+    out += '\n' + flag('windowFromAttemptFrequency', inputs_ok and any('attempt_frequency()' in ast.unparse(n.value) for n in ast.walk(fn)
+                       if isinstance(n, ast.Assign) and isinstance(n.targets[0], ast.Tuple) and [getattr(e, 'id', None) for e in n.targets[0].elts][:1] == ['attempt_freq']),
+                       '`attempt_freq` is the mean attempt frequency of the trajectory\'s metrics, `time_step` the trajectory\'s time step')
+    return HEADER + out + '\nend G.Gen\n'
+
+
+def slice_c19():
+    tree = ast.parse((REPO_SRC / 'transitions.py').read_text())
+    fn = find_function(tree, '_split_transitions_events')
+    bins = next((n.value for n in fn.body if isinstance(n, ast.Assign) and ast.unparse(n.targets[0]) == 'bins'), None)
+    if not (isinstance(bins, ast.Call) and ast.unparse(bins.func) == 'np.linspace' and len(bins.args) == 3
+            and [(k.arg, ast.unparse(k.value)) for k in bins.keywords] == [('dtype', 'int')]):
+        raise Untranslatable('bins is not `np.linspace(<start>, <stop>, <count>, dtype=int)`')
+    sl = Slice(['n_states', 'n_parts'])
+    start, stop, count = (sl.arith(a, {}) for a in bins.args)
+    parts = next((n.value for n in fn.body if isinstance(n, ast.Assign) and ast.unparse(n.targets[0]) == 'parts'), None)
+    if not (isinstance(parts, ast.ListComp) and len(parts.generators) == 1 and ast.unparse(parts.generators[0].iter) == 'pairwise(bins)'
+            and ast.unparse(parts.generators[0].target) == '(start, stop)' and not parts.generators[0].ifs):
+        raise Untranslatable('parts is not a comprehension over `pairwise(bins)`')
+    elt = parts.elt
+    if isinstance(elt, ast.Call) and isinstance(elt.func, ast.Attribute) and elt.func.attr == 'copy' and not elt.args:
+        elt = elt.func.value
+    if not (isinstance(elt, ast.Subscript) and ast.unparse(elt.value) == 'events' and isinstance(elt.slice, ast.BinOp) and isinstance(elt.slice.op, ast.BitAnd)):
+        raise Untranslatable('part selection is not `events[<cond> & <cond>]`')
+    sl2 = Slice(['t', 'start', 'stop'], {'events[split_key]': 't'})
+    c1, c2 = sl2.arith(elt.slice.left, {}), sl2.arith(elt.slice.right, {})
+    # re-basing
+    loop = next((n for n in fn.body if isinstance(n, ast.For) and ast.unparse(n.iter) == 'zip(bins[:-1], parts)' and ast.unparse(n.target) == '(offset, part)'), None)
+    if loop is None or len(loop.body) != 1 or not (isinstance(loop.body[0], ast.AugAssign) and ast.unparse(loop.body[0].target) == 'part[dependent_keys]'):
+        raise Untranslatable('re-basing loop is not `for offset, part in zip(bins[:-1], parts): part[dependent_keys] <op>= …`')
+    sl3 = Slice(['t', 'offset'], {'part[dependent_keys]': 't'})
+    aug = loop.body[0]
+    if type(aug.op) not in BIN:
+        raise Untranslatable('re-basing operator')
+    reb = f'(t {BIN[type(aug.op)]} {sl3.arith(aug.value, {})})'
+    out = ('/-- transitions.py _split_transitions_events: `bins = np.linspace(binsStart, binsStop, binsCount, dtype=int)` -/\n'
+           f'def binsStart (n_states n_parts : Rat) : Rat :=\n  {start}\n'
+           f'def binsStop (n_states n_parts : Rat) : Rat :=\n  {stop}\n'
+           f'def binsCount (n_states n_parts : Rat) : Rat :=\n  {count}\n'
+           '\n/-- an event with time `t` belongs to the part with boundaries `start`, `stop` -/\n'
+           f'def inPart (t start stop : Rat) : Bool :=\n  decide ({c1} ∧ {c2})\n'
+           '\n/-- re-basing of the times of a part whose first boundary is `offset` -/\n'
+           f'def rebase (t offset : Rat) : Rat :=\n  {reb}\n')
+    # Trajectory.split
+    t2 = ast.parse((REPO_SRC / 'trajectory.py').read_text())
+    f2 = find_function(t2, 'Trajectory.split')
+    iv = next((n.value for n in f2.body if isinstance(n, ast.Assign) and ast.unparse(n.targets[0]) == 'interval'), None)
+    if not (isinstance(iv, ast.Call) and ast.unparse(iv.func) == 'np.linspace' and len(iv.args) == 3
+            and [(k.arg, ast.unparse(k.value)) for k in iv.keywords] == [('dtype', 'int')]):
+        raise Untranslatable('Trajectory.split: interval is not `np.linspace(<start>, <stop>, <count>, dtype=int)`')
+    sl4 = Slice(['n_frames', 'n_parts'], {'len(self)': 'n_frames'})
+    a, b, c = (sl4.arith(x, {}) for x in iv.args)
+    sub = assigned_text(f2, 'subtrajectories')
+    out += ('\n/-- trajectory.py Trajectory.split: `interval = np.linspace(splitStart, splitStop, splitCount, dtype=int)` -/\n'
+            f'def splitStart (n_frames n_parts : Rat) : Rat :=\n  {a}\n'
+            f'def splitStop (n_frames n_parts : Rat) : Rat :=\n  {b}\n'
+            f'def splitCount (n_frames n_parts : Rat) : Rat :=\n  {c}\n\n')
+    out += flag('splitPartsAreSlices', len(sub) >= 1 and sub[0] == '[self[start:stop] for start, stop in pairwise(interval)]',
+                'every part is the slice `self[start:stop]` of consecutive interval boundaries (slicing is representation-independent, C15)')
+    return HEADER + out + '\nend G.Gen\n'
+
+
+def slice_c11():
+    tree = ast.parse((REPO_SRC / 'rdf.py').read_text())
+    fn = find_function(tree, 'radial_distribution_between_species')
+    norm = next((n for n in fn.body if isinstance(n, ast.FunctionDef) and n.name == 'normalize'), None)
+    if norm is None:
+        raise Untranslatable('inner function normalize not found')
+    pv = assigned_text(fn, 'particle_vol')
+    sl = Slice(['radius', 'resolution', 'particle_vol', 'pi'], {'np.pi': 'pi'})
+    env, st = {}, {'raises': [], 'stores': {}, 'result_node': None}
+    sl.block(norm.body, env, [], st)
+    res = sl.arith(st['result_node'], env)
+    sl2 = Slice(['num_atoms', 'volume'], {'lattice.volume': 'volume'})
+    if len(pv) != 1:
+        raise Untranslatable('particle_vol assigned more than once')
+    pvx = sl2.arith(next(n.value for n in fn.body if isinstance(n, ast.Assign) and ast.unparse(n.targets[0]) == 'particle_vol'), {})
+    out = ('/-- rdf.py radial_distribution_between_species.normalize: number of second-species atoms an ideal gas of density\n'
+           '`particle_vol` places in the shell [radius, radius + resolution) -/\n'
+           f'def shellNorm (radius resolution particle_vol pi : Rat) : Rat :=\n  {res}\n'
+           '\n/-- the density used: atoms of the second species per cell volume -/\n'
+           f'def particleVol (num_atoms volume : Rat) : Rat :=\n  {pvx}\n\n')
+    bins = assigned_text(fn, 'bins')
+    out += flag('binsAreArange', bins == ['np.arange(0, max_dist + resolution, resolution)'],
+                'shell boundaries are `np.arange(0, max_dist + resolution, resolution)`: every multiple of the bin width up to the cut-off is a boundary')
+    hist = [ast.unparse(n.value) for n in ast.walk(fn) if isinstance(n, ast.Assign) and isinstance(n.targets[0], ast.Tuple) and ast.unparse(n.targets[0].elts[0]) == 'rdf']
+    out += '\n' + flag('countsAreHistogram', hist == ['np.histogram(distances, bins=bins, density=False)'],
+                       'raw pair counts are `np.histogram(distances, bins=bins, density=False)`')
+    return HEADER + out + '\nend G.Gen\n'
 
 
 SLICES = {'FormulasC01': slice_c01, 'FormulasC02': slice_c02, 'FormulasC05': slice_c05, 'FormulasC08': slice_c08,
-          'FormulasC09': slice_c09, 'FormulasC10': slice_c10, 'FormulasC14': slice_c14}
+          'FormulasC09': slice_c09, 'FormulasC10': slice_c10, 'FormulasC11': slice_c11, 'FormulasC12': slice_c12,
+          'FormulasC14': slice_c14, 'FormulasC19': slice_c19}
 
 
 def render(name):
